@@ -193,9 +193,8 @@ func baseHvSPS() hvSPS {
 
 const maxRPSWritten = 300
 
-// rpsCounts returns the per-spec NumDeltaPocs of every set the builder writes
-// (its own model of the layout: an inter-predicted set has one flag pair per
-// entry of its reference set plus one).
+// rpsWritten: number of st_ref_pic_set( ) structures actually written (the
+// coded count may be larger; inputs stay below 64 KiB).
 func (s *hvSPS) rpsWritten() int {
 	n := s.nRPS
 	if n > maxRPSWritten {
@@ -242,7 +241,8 @@ func (s *hvSPS) writeInter(w *hw, nRef int, mode int, inSlice bool, deltaIdxMinu
 }
 
 // writeRPS writes the st_ref_pic_set( ) list; returns the entry count of each
-// set written.
+// set written (the builder's own model of the layout: an inter-predicted set
+// has one flag (pair) per entry of its reference set plus one).
 func (s *hvSPS) writeRPS(w *hw) []int {
 	var counts []int
 	for i := 0; i < s.rpsWritten(); i++ {
@@ -1183,7 +1183,7 @@ func randomStructCase(r *runner.Rand) structCase {
 	switch r.Intn(5) {
 	case 0:
 		a := avPPS{groups: pickU(r, 0, 1, 2, 7, 8), mapType: uint64(r.Intn(8)), val: pickU(r, hostileCounts...), written: r.Intn(20),
-			refL0: pickU(r, 0, 1, 31, 32, 1<<32 - 1, 1 << 32), refL1: pickU(r, 0, 31, 32, maxU64), weighted: r.Bool(), bipred: uint64(r.Intn(4)), more: r.Bool()}
+			refL0: pickU(r, 0, 1, 31, 32, 1<<32-1, 1<<32), refL1: pickU(r, 0, 31, 32, maxU64), weighted: r.Bool(), bipred: uint64(r.Intn(4)), more: r.Bool()}
 		return structCase{group: "avc-pps/random", codec: "avc", kind: "avc-pps", av: a, desc: fmt.Sprintf("random AVC PPS %+v", a)}
 	case 1, 2:
 		s := baseHvSPS()
